@@ -20,7 +20,11 @@ MANIFEST = {
             '`set default`, all unit modes) on multizone devices with 1-82 '
             'zones and matrix devices h x w with h <= 11, w <= 8. Exactly one '
             'message per statement is required and every cell of every '
-            'payload is compared (half a raw unit). Sampled.',
+            'payload is compared (half a raw unit). Sampled.'
+            ' One colour sent in one script to a plain light, a zone and '
+            'matrix cells must arrive as the same four integers (tie valu'
+            'es in all unit modes); the same clauses are repeated word fo'
+            'r word on a second matrix light of another size.',
     'note': 'Trusted: reference overlay model, simulated devices; '
             'set_zone_color(start,end) = [start,end). Ranges stay inside the '
             'device and ordered (the statement says nothing else).',
